@@ -8,7 +8,7 @@ B = BLOCK
 DECOYS = ["decoy_all", "decoy_some", "decoy_head", "longer", "shorter"]
 
 
-def pick(rng, P, shapes=("D2", "D3", "D4", "S1", "D2n", "DN", "DU", "D5")):
+def pick(rng, P, shapes=("D2", "D3", "D4", "S1", "D2n", "DN", "DU", "D5", "DNFC", "DS", "DS")):
     A = [a for a in alphabet(P) if a <= 3 * P + B + 1]
     while True:
         sh = rng.choice(shapes)
@@ -254,6 +254,19 @@ class C14(RebuildProp):
                             return [self.cand(rng, "intact", search=0)]
                         out.append(self.scen(rng, P, v, (sh, sizes), cands, nsearch=1))
         out += rebuild_universe(self.clauses, rng, None if tier == "thorough" else 1200)
+        # two releases of one torrent (same name, same relative path, second file larger) rebuilt one
+        # after the other into one destination: the later copy replaces the shorter earlier one and must
+        # leave the earlier release's source file alone
+        for v in (1, 2, 3):
+            for s1, s2 in ((2 * B + 1, 4 * B + 5), (5, B + 5), (B, 2 * B)):
+                c = self.scen(rng, B, v, ("D1", (s1,)), lambda fi, f: [self.cand(rng, "intact", search=0)], nsearch=1)
+                t2 = mk_tree("D1", (s2,))
+                t2["files"][0]["gen"] = 1                      # other bytes: a newer release
+                t2["files"][0]["cands"] = [self.cand(rng, "intact", search=0)]
+                t2["files"][0]["dest_pre"] = "absent"
+                c["more_trees"] = [t2]
+                c["same_name"] = True
+                out.append(c)
         for v in (1, 2, 3):           # only dead decoys: nothing may be placed
             for sizes in ((B + 1, 2 * B), (5, 3 * B), (2 * B, 2 * B)):
                 out.append(self.scen(rng, B, v, ("D2", sizes), lambda fi, f: [self.cand(rng, "decoy_all")], nsearch=1))
